@@ -311,6 +311,37 @@ theorem C01.elem_op_correct (lc : LC K) (h : LCSpec lc) (op : Op) (x y t : Nat) 
     obtain ⟨m', e, s1, f1⟩ := C01.lincomb1_ok lc h 1 y x m
     exact ⟨m', x, by simp [Op.exec, e], by simp [Op.inPlace], by simpa [Op.spec] using s1, fun b hb _ => f1 b hb⟩
 
+/-- ARRAY-LIKE operands (`x + [1, 2, 3]`, `[..] - x`, `x *= arr`): the coercion branch
+`other = self.space.element(other)` followed by re-entry at the element branch gives the same
+entry-wise formula with the values `v` of the array-like, returns `self` / a fresh element as
+for an element operand, and modifies no pre-existing buffer except the returned one (`t2` is
+the buffer `space.element` wraps; for an `ndarray` operand that is the caller's array, and it
+is only read: its contents are `v` before and after). Meaningful for the element-operand
+operators (`…E`); follows from `C01.elem_op_correct` on the memory after the coercion. -/
+theorem C01.elem_op_coerced_correct (lc : LC K) (h : LCSpec lc) (op : Op) (x t2 t : Nat)
+    (v : Vec K) (m : Mem K) (hx : t ≠ x) (h2x : t2 ≠ x) (h2t : t ≠ t2)
+    (hdiv : DivOK op 0 (m x) v) :
+    ∃ m' r, Op.execCoerced lc op x t2 t v m = some (m', r) ∧
+      r = (if op.inPlace then x else t) ∧
+      (∀ i, m' r i = op.spec 0 (m x i) (v i)) ∧
+      (∀ buf, buf ≠ r → buf ≠ t → buf ≠ t2 → m' buf = m buf) := by
+  have e1 : (m.write t2 v) x = m x := by simp [Mem.write, Ne.symm h2x]
+  have e2 : (m.write t2 v) t2 = v := by simp [Mem.write]
+  obtain ⟨m', r, e, hr, s, f⟩ := C01.elem_op_correct lc h op x t2 t 0 (m.write t2 v) hx h2t
+    (by rw [e1, e2]; exact hdiv)
+  refine ⟨m', r, e, hr, fun i => ?_, fun b hb hbt hb2 => ?_⟩
+  · rw [s i, e1, e2]
+  · rw [f b hb hbt]; simp [Mem.write, hb2]
+
+/-- Non-vacuity: `[8, 8, 8] / x` (→ `rdivE` after coercion) through the extracted `_lincomb`. -/
+example : ∃ m' r, Op.execCoerced (K := Rat) (fun A a b m => lincombImpl params 3 contigD A a b m)
+      .rdivE 0 1 2 (fun _ => 8) (fun _ i => (i : Rat) + 2) = some (m', r) ∧ m' r 2 = 2 := by
+  obtain ⟨m', r, e, _, s, _⟩ := C01.elem_op_coerced_correct (K := Rat) _
+    (C01.tensor_lincomb_spec 3 contigD) .rdivE 0 1 2 (fun _ => 8) (fun _ i => (i : Rat) + 2)
+    (by decide) (by decide) (by decide)
+    (by intro i; show ((i : ℕ) : ℚ) + 2 ≠ 0; exact_mod_cast (by omega : i + 2 ≠ 0))
+  exact ⟨m', r, e, by rw [s 2]; norm_num [Op.spec]⟩
+
 /-- `x / 0` and `x /= 0` with a scalar zero raise (Python's `1.0 / other`). -/
 theorem C01.div_by_zero_scalar_raises (lc : LC K) (x y t : Nat) (m : Mem K) :
     Op.exec lc .divS x y t 0 m = none ∧ Op.exec lc .idivS x y t 0 m = none := by
